@@ -315,13 +315,18 @@ where
             } => {
                 match future.as_mut().poll(cx) {
                     Poll::Ready(result) => {
-                        // Notify all waiters
-                        if let Some(k) = registration.key.take() {
+                        // Notify all waiters. The copy is made while the key is still held by
+                        // `registration`: `Clone` of the response / error is code of the wrapped
+                        // service, and if it unwinds, `Registration::drop` unregisters the key
+                        // (waiters observe `Closed`) instead of leaving it registered for ever.
+                        if registration.key.is_some() {
                             let result_clone = match &result {
                                 Ok(res) => Ok(res.clone()),
                                 Err(e) => Err(e.clone()),
                             };
-                            registration.in_flight.complete(&k, result_clone);
+                            if let Some(k) = registration.key.take() {
+                                registration.in_flight.complete(&k, result_clone);
+                            }
                         }
                         Poll::Ready(result.map_err(CoalesceError::Service))
                     }
